@@ -8,8 +8,8 @@ from vlib.verdict import Case
 
 PROPERTY = 'C19'
 MANIFEST = {
- 'level_text': 'Lean 4 theorems, for every interleaving of queueMsg/sendMsg/takeMsg/die/reset/clock/config operations and every outFilter chain, about a model of Irc.queueMsg/sendMsg/takeMsg/die/reset and IrcMsgQueue: multiset conservation (accepted = handed to the driver + dropped by a filter + lost + still queued + discarded by reset; refused => explicit False and no effect), fast queue first then highest class, FIFO inside a class (a rate-limited JOIN only moves back), throttle and JOIN-rate gaps, the driver is killed only with empty queues (once connected), a filter returning None consumes only its message and a quitting bot drains in boundedly many takes; kernel-checked; priority tables, the rate-limited command and the echo-emulated commands are re-extracted from /repo on every run; the model is tied to src/irclib.py by a differential run of seeded operation sequences on a real Irc object (return values, driver calls, filter log, full queue/state dump after every operation), which also evaluates the property statement directly on the implementation.',
- 'level_note': 'Trusted: Lean kernel; axioms propext/Classical.choice/Quot.sound only; harness/extractors/ircqueue.py; the correspondence harness (generator quality bounds what it sees); integer-valued virtual clock; stub driver whose reconnect() calls irc.reset() as SocketDriver.reconnect does. Modelled: IrcMsgQueue.enqueue/dequeue/__contains__/reset, Irc.queueMsg/sendMsg/takeMsg (fast queue, throttle, ping emission and ping time-out reconnect, outFilter chain with recursion on None, firewall on a raising filter, echo emulation tag/assert, zombie branch)/die/reset/_queueConnectMessages/_reallyDie(driver part). Not modelled: _truncateMsg, labeled-response labels, server tags in message equality, the callbacks of real plugins (the Irc under test carries harness filter callbacks only), clearing of the callback list when the last Irc dies, non-ASCII command upper-casing, negative or fractional rates. Precondition stated in quit_drains: die() before the end of MOTD (afterConnect False) closes the connection at once by design.',
+ 'level_text': 'Lean 4 theorems, kernel-checked, about a model of Irc.queueMsg/sendMsg/takeMsg/die/reset and IrcMsgQueue, for every interleaving of those calls with clock ticks, MOTD end, PONG, echo-message (un)acknowledgement and configuration changes, and for every chain of outFilters (arbitrary functions): multiset conservation (accepted = handed to the driver + dropped by a filter + lost + discarded by reset + still queued; refusal is an explicit False with no effect), fast queue first then the most urgent non-empty class and its head, per-class FIFO as list equations over whole histories (a rate-limited JOIN only moves to the back), a trace checker for throttle and JOIN-rate gaps that every trace passes plus its meaning spelled out, the driver is killed only with both queues empty once connected (after the repair of takeMsg), takeMsg satisfies the recursive equation of the code and a filter returning None consumes exactly its message, progress (clock past the limits => a take consumes a message) and a quitting bot drains in at most as many takes as messages wait and then closes; the one loss there is (known finding: a re-queued IrcMsg object is swallowed by the echo-emulation assert) is characterised exactly: lost only if the object was handed to the driver before, never when objects are fresh and filters return their argument or a new object, with a kernel-checked counter-example to the loss-free conservation law. Priority tables, the rate-limited command and the echo-emulated commands are re-extracted from /repo on every run and pinned by table lemmas. The model is tied to src/irclib.py by a differential run of seeded operation sequences on a real Irc object (return values, driver calls, filter log, discarded messages and the full queue/state dump after every operation), which also evaluates the property statement directly on the implementation to produce replays.',
+ 'level_note': 'Trusted: Lean kernel; axioms propext/Classical.choice/Quot.sound only; harness/extractors/ircqueue.py; the correspondence harness (generator quality bounds what it sees); integer-valued virtual clock; stub driver whose reconnect() calls irc.reset() as SocketDriver.reconnect does; a second Irc stays registered so that _reallyDie does not clear the shared callback list. Modelled: IrcMsgQueue.enqueue/dequeue/__contains__/reset, Irc.queueMsg/sendMsg/takeMsg (fast queue, throttle, ping emission and ping time-out reconnect, outFilter chain with recursion on None, firewall on a raising filter, echo emulation tag/assert, zombie branch)/die/reset/_queueConnectMessages/_reallyDie (driver part), object identity of messages. Not modelled: _truncateMsg, labeled-response labels, server tags in message equality, the callbacks of real plugins (the Irc under test carries harness filter callbacks only), non-ASCII command upper-casing, negative or fractional rates, messages sent with sendMsg are outside the throttle/JOIN-rate claims (by design of the fast queue). Stated precondition of quit_drains: die() before the end of MOTD (afterConnect False) closes the connection at once by design.',
  'technique': 'Lean 4 proof (induction over operation sequences with invariants) + table extraction + differential correspondence',
  'design_ref': 'DESIGN.md §6 C19',
 }
